@@ -624,12 +624,6 @@ func textPadLeft(args ...tengo.Object) (ret tengo.Object, err error) {
 		return nil, tengo.ErrStringLimit
 	}
 
-	sLen := len(s1)
-	if sLen >= i2 {
-		ret = &tengo.String{Value: s1}
-		return
-	}
-
 	s3 := " "
 	if argslen == 3 {
 		s3, ok = tengo.ToString(args[2])
@@ -641,6 +635,12 @@ func textPadLeft(args ...tengo.Object) (ret tengo.Object, err error) {
 			}
 			return
 		}
+	}
+
+	sLen := len(s1)
+	if sLen >= i2 {
+		ret = &tengo.String{Value: s1}
+		return
 	}
 
 	padStrLen := len(s3)
@@ -687,12 +687,6 @@ func textPadRight(args ...tengo.Object) (ret tengo.Object, err error) {
 		return nil, tengo.ErrStringLimit
 	}
 
-	sLen := len(s1)
-	if sLen >= i2 {
-		ret = &tengo.String{Value: s1}
-		return
-	}
-
 	s3 := " "
 	if argslen == 3 {
 		s3, ok = tengo.ToString(args[2])
@@ -704,6 +698,12 @@ func textPadRight(args ...tengo.Object) (ret tengo.Object, err error) {
 			}
 			return
 		}
+	}
+
+	sLen := len(s1)
+	if sLen >= i2 {
+		ret = &tengo.String{Value: s1}
+		return
 	}
 
 	padStrLen := len(s3)
